@@ -410,7 +410,7 @@ def random_slots(rng, dl, nreads):
 
 def stream_recv_exhaustive(ctx, B):
     rng = ctx.rng
-    n_seq = ctx.scale(quick=5, thorough=60)
+    n_seq = ctx.scale(quick=10, thorough=200)
     for _ in range(n_seq):
         n = rng.choice([2, 2, 3])
         wants = [rng.choice([0, 1, 1, 2]) for _ in range(n)]
@@ -437,7 +437,7 @@ def stream_recv_exhaustive(ctx, B):
 
 def stream_recv_random(ctx, B):
     rng = ctx.rng
-    n = ctx.scale(quick=1500, thorough=30000)
+    n = ctx.scale(quick=2500, thorough=60000)
     for _ in range(n):
         k = rng.choice([1, 2, 3, 4, 6, 9, 12])
         msgs = [gen_msg(rng, i) for i in range(k)]
@@ -532,7 +532,7 @@ def stream_sender(ctx):
     rng = ctx.rng
     marshal, message, protocol = _mods()
     from txdbus import client
-    n = ctx.scale(quick=1500, thorough=20000)
+    n = ctx.scale(quick=1500, thorough=40000)
     cases = []
     for _ in range(n):
         sig, body, trees, fds = gen_body(rng, rng.choice([3, 1000]))
@@ -595,7 +595,9 @@ def stream_sender(ctx):
     conn.callRemote('/a', 'M', signature='h', body=[12], expectReply=False)
     ctx.case('sender-callremote', sample={'two-calls': tr.calls})
     if tr.calls != ['f11', 'W', 'f12', 'W']:
-        ctx.violation('sender-list-reused', 'two callRemote calls in a row sent %r' % (tr.calls,),
+        reused = sorted(c for c in tr.calls if c != 'W') != ['f11', 'f12']
+        ctx.violation('sender-list-reused' if reused else 'sender-send-order',
+                      'two callRemote calls in a row sent %r' % (tr.calls,),
                       inp={'calls': [['h', [11]], ['h', [12]]]}, observed=tr.calls, expected=['f11', 'W', 'f12', 'W'])
 
 
